@@ -239,6 +239,9 @@ fn run_one(id: &str, views: u32, s: &Script) -> CaseResult {
         // re-entrant Clone (not together with armed destructor panics: C11)
         cfg.clone_reentrant = (s.layout_seed >> 14) & 1 == 0 && cfg_id != "C11";
         cfg.default_ctor = match (s.layout_seed >> 16) & 7 { 0 => 2, 1 | 2 | 3 => 1, _ => 0 };
+        if std::env::var_os("CX_LOG_PANIC").is_some() {
+            crate::exec::LOG_PANIC_IN.store(((s.layout_seed >> 40) % 48) as u32, std::sync::atomic::Ordering::Relaxed);
+        }
         // no logger in half of the cases, else a sink at a level picked by the script
         crate::exec::set_log_level_sel(if s.layout_seed & 2 == 2 { 1 + ((s.layout_seed >> 21) % 7) as u8 } else { 0 });
         interp::run_script(s, cfg);
@@ -404,7 +407,7 @@ pub fn worker_k<K: Kind>(args: &[String]) -> i32 {
 }
 
 pub const BIG_PROPS: [&str; 13] = ["C01", "C02", "C03", "C04", "C05", "C06", "C09", "C10", "C11", "C12", "C14", "C15", "C16"];
-pub const TYPES_PROPS: [&str; 9] = ["C01", "C02", "C03", "C04", "C05", "C06", "C08", "C11", "C12"];
+pub const TYPES_PROPS: [&str; 10] = ["C01", "C02", "C03", "C04", "C05", "C06", "C08", "C09", "C11", "C12"];
 pub const SWEEP_PROPS: [&str; 8] = ["C01", "C02", "C03", "C04", "C05", "C06", "C08", "C11"];
 
 /// One worker of the small-scope sweep: cases index, index+of, ...
